@@ -29,6 +29,20 @@ def Call.looksUpFirst (cfg : Cfg) (abi : Abi) : Call → Prop
   | .ro (.fdSeek _ _ wh _) => cfg.seekChecksWhenceFirst = true → (whenceOf abi wh).isSome = true
   | _ => True
 
+/-- every import except the unimplemented ENOSYS stubs -/
+def Call.implemented : Call → Prop
+  | .ro (.nosys _ _) => False
+  | _ => True
+
+theorem looksUpFirst_of_implemented (cfg : Cfg) (abi : Abi) (c : Call) (hs : cfg.seekChecksWhenceFirst = false)
+    (h : c.implemented) : c.looksUpFirst cfg abi := by
+  cases c with
+  | ro c =>
+    cases c <;> first | exact trivial | exact h | (intro hw; rw [hs] at hw; cases hw)
+  | fdClose n => exact trivial
+  | fdReaddir n b l c u => exact trivial
+  | pathOpen a b c d e f g h i => exact trivial
+
 theorem step_ro_eq (cfg : Cfg) (H : Host σ) (abi : Abi) (s : St σ) (c : ROCall) (e : Nat)
     (h : stepRO cfg H abi s c = ret ⟨s.mem, []⟩ s.host e) :
     step cfg H abi s (.ro c) = .val (s, .errno e []) := by
